@@ -18,7 +18,8 @@ MANIFEST = {
 THEOREMS = ['C18.name_invariant', 'C18.run_never_raises', 'C18.conservation', 'C18.registrations_distinct',
             'C18.exactly_once', 'C18.removed_never_run', 'C18.fired_at_most_once', 'C18.fired_were_registered',
             'C18.run_not_early_and_complete', 'C18.run_fires_minimum', 'C18.raise_ends_only_its_body',
-            'C18.periodic_recurs', 'C18.args_preserved', 'C18.scheduled_match_registration']
+            'C18.periodic_recurs', 'C18.args_preserved', 'C18.scheduled_match_registration',
+            'C18.reschedule_moves_entry']
 TRUSTED = ['Lean 4.33.0 kernel; axioms ⊆ {propext, Classical.choice, Quot.sound}',
            'CPython heapq.heappop returns an entry with minimal due time (mytuple compares due times only); checked on every pop of the run',
            'harness/c18.py generators, instrumentation (virtual clock, recording heapq proxy, recording addEvent/removeEvent wrappers, instrumented event functions), canonicalisation; hex line protocol']
@@ -228,7 +229,7 @@ class Impl(object):
 
     def on_pop(self, item, heap):
         self.pops += 1
-        if self.pops > 400:
+        if self.pops > 3000:
             raise RuntimeError('run() does not terminate')
         t, name = item[0], item[1]
         self.picks.append(name)
@@ -424,21 +425,19 @@ def gen_time(r, allow_past=True):
     return ('A', r.choice([0, 500, 990, 999, 1000, 1001]))
 
 def gen_act(r, idx, nfn):
+    """bodies only call *later* functions, so that the events a function spawns form a finite tree
+    (a function re-adding itself, directly or through a partner, multiplies without bound — in
+    Python as in the model — and only exhausts the run)"""
     x = r.random()
-    if x < 0.40:
-        t = gen_time(r)
-        fn = r.randrange(nfn)
-        if t[0] == 'A' and fn <= idx:
-            # a possibly-overdue event may only call a later function (no unbounded cascade)
-            if idx + 1 < nfn: fn = r.randrange(idx + 1, nfn)
-            else: t = ('R', r.choice([0, 1, 5]))
-        return ['add', fn, t, r.choice(NAMES), r.choice(ARGS)]
+    later = list(range(idx + 1, nfn))
+    if x < 0.40 and later:
+        return ['add', r.choice(later), gen_time(r), r.choice(NAMES), r.choice(ARGS)]
     if x < 0.55: return ['remove', r.choice(['a', 'b', 'c', 'd', 0, 1, 2])]
     if x < 0.72:
-        # inside a body only towards the future (two functions rescheduling/re-adding each other
-        # into the past would keep run() busy for ever — in Python as in the model)
+        # inside a body only towards the future
         return ['resched', r.choice(['a', 'b', 'c', 'd', 0, 1]), ('R', r.choice([0, 1, 2, 5, 10]))]
-    if x < 0.85: return ['periodic', r.randrange(nfn), r.choice([0, 1, 3, 5, 10]), r.choice(NAMES), r.choice(ARGS), r.choice([None, None, 0, 1, 2, 3])]
+    if x < 0.85 and later:
+        return ['periodic', r.choice(later), r.choice([0, 1, 3, 5, 10]), r.choice(NAMES), r.choice(ARGS), r.choice([None, 0, 1, 2, 3])]
     return ['raise']
 
 def gen_prog(r):
